@@ -15,7 +15,15 @@ man = {
    {"name": "tlc", "path": "/verif/spec", "serves_properties": sorted(CHECKS),
     "kind_free_text": "explicit TLA+ specification: layer A (reference truncated Taylor algebra), layer B (implementation-shaped transcription of the Rust code), calculator state machine; checked by TLC; bound to the code by replaying TLC-generated behaviours and by validating recorded traces"},
    {"name": "hcore", "path": "/verif/harness/hcore", "serves_properties": sorted(CHECKS),
-    "kind_free_text": "Rust conformance harness with a path dependency on /repo (rebuilds from the working tree)"}],
+    "kind_free_text": "Rust conformance harness with a path dependency on /repo (rebuilds from the working tree): replay of TLC-generated behaviours, trace emitter, table interpreter with running error bounds"},
+   {"name": "hfeat", "path": "/verif/harness/hfeat", "serves_properties": ["C12", "C16"],
+    "kind_free_text": "the same for the crate's serde and linalg features (LU / Jacobi step-machine replay, decomposition identities, serde trees)"},
+   {"name": "hpy", "path": "/verif/harness/hpy", "serves_properties": ["C17"],
+    "kind_free_text": "the crate's python feature inside an embedded CPython (NumPy from the tooling venv): table rows, array behaviours of PyArrays.tla, whole programs, drivers"},
+   {"name": "apalache", "path": "/verif/spec/PowerA.tla", "serves_properties": ["C09"],
+    "kind_free_text": "unbounded companion of Power.tla (SMT); soft: 'unavailable' is recorded in the evidence, TLC stays the verdict"},
+   {"name": "tlapm", "path": "/verif/spec/DerivAlgP.tla", "serves_properties": ["C07"],
+    "kind_free_text": "proof companion of DerivOps.tla (150 obligations); soft: 'unavailable' is recorded in the evidence, TLC stays the verdict"}],
  "checks": [],
  "not_applicable": [],
  "notes": "see DESIGN.md; ./vp check <ID> --tier quick|thorough; exit 0 held, 1 VIOLATION, 2 tool error",
